@@ -1373,6 +1373,13 @@ fn apply_mut(
 				SlateStateV4::Invoice2 => SlateStateV4::Standard2,
 				_ => return None,
 			};
+			// the fee is public (it travelled on the first slate): a branch that does not refill it
+			// from the context gets it from the forged reply
+			if let Some(f) = ctx.as_ref().and_then(|c| c.fee) {
+				if let Ok(ff) = FeeFields::try_from(f) {
+					v.fee = ff;
+				}
+			}
 		}
 		Mut::PPNoSig => v.proof.as_mut()?.rsig = None,
 		Mut::PPResign(newaddr) => {
